@@ -128,7 +128,9 @@ def run():
     rep.obligations.extend(o for o in nz if o.id.split("[")[0] in ("nz.perm", "nz.perm-wf", "nz.normalises"))
     from props import C05
     c5 = tabvc.run_family(C05._group_obligations, list(range(1, 231)))
-    rep.obligations.extend(o for o in c5 if o.id.split("[")[0] in ("apply.letters", "apply.member"))
+    # letters are permuted by an entry of the group's table AND the atoms are moved by the very same entry (A.x + t): otherwise the letters
+    # would belong to other positions than the ones returned
+    rep.obligations.extend(o for o in c5 if o.id.split("[")[0] in ("apply.letters", "apply.member", "apply.affine"))
     rep.functions.append(func_source_info(REL, "SymmetryAnalyzer._find_wyckoff_ground_state"))
     return rep
 
@@ -147,7 +149,15 @@ def replay(ob):
     fails = []
     for sg in groups[:7]:
         L = _sym.letters_of(sg)
-        for extra in ([(L[0], 29, None)], [(L[min(1, len(L) - 1)], 29, None)], [(L[0], 29, None), (L[min(2, len(L) - 1)], 47, None)]):
+        import itertools
+        # single letters, and pairs of the first letters with both species assignments (the ranking by species decides which table entry is applied)
+        # (free parameters differ from the ones of the pinning general position, so that no two atoms coincide)
+        P1, P2 = {"x": 0.2113, "y": 0.0687, "z": 0.3391}, {"x": 0.0641, "y": 0.3727, "z": 0.1583}
+        extras = [[(L[0], 29, P1)], [(L[min(1, len(L) - 1)], 29, P1)]]
+        for li, lj in itertools.combinations(L[:4], 2):
+            extras.append([(li, 29, P1), (lj, 47, P2)])
+            extras.append([(li, 47, P1), (lj, 29, P2)])
+        for extra in extras:
             try:
                 at = tr.pinned_probe(sg, extra, npin=1)
                 if len(at) > 220:
